@@ -28,8 +28,10 @@ var GenTime = time.Date(2024, 1, 1, 0, 0, 0, 0, time.UTC)
 func NewApp(genesis ...app.GenesisState) (app.TestApp, sdk.Context) {
 	newAppMu.Lock()
 	defer newAppMu.Unlock()
+	// app.NewTestApp() rewrites the global sdk.Config (bech32 prefixes) on every call, which races
+	// with workers already running; set the config once and build every app "from sealed".
 	cfgOnce.Do(func() { app.SetSDKConfig() })
-	tApp := app.NewTestApp()
+	tApp := app.NewTestAppFromSealed()
 	tApp.InitializeFromGenesisStatesWithTime(GenTime, genesis...)
 	ctx := tApp.NewContext(false, tmproto.Header{Height: tApp.LastBlockHeight() + 1, Time: GenTime, ChainID: app.TestChainId})
 	return tApp, ctx
